@@ -407,17 +407,15 @@ class ExprMixin:
         if isinstance(l.ty, T.Set) or isinstance(r.ty, T.Set) or l.ty == T.EMPTYSET or r.ty == T.EMPTYSET:
             st = l.ty if isinstance(l.ty, T.Set) else r.ty
             l, r = self.coerce(l, st), self.coerce(r, st)
-            x = fresh("sx", st.e.sort())
-            out = fresh("setop", st.sort())
+            su, si, sdf = TH.set_ops(st.e)
             if isinstance(op, ast.BitOr):
-                body = z3.Or(l.t[x], r.t[x])
+                out = su(l.t, r.t)
             elif isinstance(op, ast.BitAnd):
-                body = z3.And(l.t[x], r.t[x])
+                out = si(l.t, r.t)
             elif isinstance(op, ast.Sub):
-                body = z3.And(l.t[x], z3.Not(r.t[x]))
+                out = sdf(l.t, r.t)
             else:
                 raise Unsupported("set operator")
-            self._assume(p, z3.ForAll([x], out[x] == body, patterns=[out[x]]))
             return T.scalar(st, out)
         if isinstance(op, ast.Add) and (l.ty == T.TUP or isinstance(l.ty, T.Bag)) and (r.ty == T.TUP or isinstance(r.ty, T.Bag)):
             # list concatenation, order not modelled: multiset union
